@@ -548,3 +548,5 @@ func TimeSleep(d time.Duration) {
 	}
 	Step("sleep")
 }
+
+func (f *OsFile) WriteString(s string) (int, error) { return f.Write([]byte(s)) }
